@@ -148,6 +148,36 @@ def main():
                                                 'cfg': {'lmtp': lmtp, 'pipelining': pipe, 'kind': 'smtp', 'pool_size': 1, 'idle': 5, 'maxconn': max(8, r.nconn),
                                                         'sched': 'ccs'}, 'ev': ev}, separators=(',', ':')) + '\n')
                             n += 1
+    # ---- directed: a transaction is refused, and the RSET that follows is answered late (only when the next command arrives) or
+    # never: the next message must not be sent down a connection on which an answer is still outstanding
+    if shard == 3 % nshards or not quick:
+        for lmtp in (False, True):
+            for pipe in (False, True):
+                for rs in ('late', 'stall'):
+                    for first in ({'rcpt': [{0: 550}]}, {'data': {0: 554}}, {'eod': {0: 450}}):
+                        dk += 1
+                        if not quick and (dk + 5) % nshards != shard:
+                            continue
+                        sc0 = dict(first)
+                        sc0['rset'] = rs
+                        sc0['eod'] = dict(sc0.get('eod', {}))
+                        sc0['eod'][1] = 550
+                        r = rdrv.RelayRun(lmtp, pipe, [sc0, {'eod': {0: 550}}], pool_size=1, idle_timeout=30)
+                        r.attempt(1, 1)
+                        r.settle()
+                        for _ in range(3):          # the command timeout of the unanswered RSET passes
+                            if vt.CLOCK.next_deadline() is not None and vt.CLOCK.next_deadline() <= 1000 + rdrv.CMD_T:
+                                vt.CLOCK.fire_next()
+                                r.settle()
+                                r.log(t='advance')
+                        r.attempt(2, 1)
+                        r.settle()
+                        ev = r.run_to_end()
+                        stats['executions'] += 1
+                        f.write(json.dumps({'id': shard + n * nshards, 'cls': 'late-rset',
+                                            'cfg': {'lmtp': lmtp, 'pipelining': pipe, 'kind': 'smtp', 'pool_size': 1, 'idle': 30, 'maxconn': max(8, r.nconn),
+                                                    'sched': 'csacs'}, 'ev': ev}, separators=(',', ':')) + '\n')
+                        n += 1
     # ---- the HTTP relay's pool: real HttpRelay against a loopback peer, several attempts, keep-alive on and off
     from harness import hdrv
     HACTS = ['ok200', 'ok200body', 'ok200chunked', 'hdr450body', 'ok204plain', 'hdr550', 'hdr450', 'plain500', 'plain404', 'close', 'garbage', 'stall']
